@@ -166,5 +166,28 @@ def run(tier, seed, repo, focus=None):
                 res.count(key=repr(scn), nontrivial=True, n=150, check="KdqTreeStreaming rule")
                 if msg:
                     res.violation("KdqTreeStreaming: " + msg, REPLAY % dict(verif=VERIF, scn=scn, which="stream"), known)
+    # randomly drawn constructor parameters (documented domains)
+    import numpy as _np
+    prng = _np.random.RandomState(seed + 909)
+    for r in range(4 if quick else 40):
+        scn = {"seed": seed + r, "batches": 8, "alpha": float(prng.choice([0.01, 0.05, 0.2, 0.5])), "bootstrap": int(prng.randint(5, 60)),
+               "ub": int(prng.randint(1, 12)), "quiet_then_half": bool(prng.randint(0, 2))}
+        try:
+            msg = check_batch(scn)
+        except Exception as e:
+            msg = "%s: %s" % (type(e).__name__, e)
+        res.count(key=repr(scn), nontrivial=True, n=8, check="KdqTreeBatch rule (random parameters)")
+        if msg:
+            res.violation("KdqTreeBatch: " + msg, REPLAY % dict(verif=VERIF, scn=scn, which="batch"), known)
+        scn = {"seed": seed + r, "n": 150, "window": int(prng.randint(4, 20)), "persistence": float(prng.choice([0.0, 0.05, 0.2, 0.5, 0.9])),
+               "alpha": float(prng.choice([0.05, 0.2, 0.4])), "bootstrap": int(prng.randint(5, 30)), "ub": int(prng.randint(1, 5)),
+               "oscillate": bool(prng.randint(0, 2))}
+        try:
+            msg = check_stream(scn)
+        except Exception as e:
+            msg = "%s: %s" % (type(e).__name__, e)
+        res.count(key=repr(scn), nontrivial=True, n=150, check="KdqTreeStreaming rule (random parameters)")
+        if msg:
+            res.violation("KdqTreeStreaming: " + msg, REPLAY % dict(verif=VERIF, scn=scn, which="stream"), known)
     res.sample({"check": "KdqTreeStreaming rule", "scenario": {"window": 12, "persistence": 0.1, "alpha": 0.2, "n": 150}})
     return res.finish()
